@@ -56,6 +56,7 @@ package gc
 //@   invariant "loop#11" proposed [C25]: forall k int :: 0 <= k && k < len(retSrcs) ==> !keepSrcs[retSrcs[k]]
 //@   invariant "loop#12" covered [C25]: srcsCovered(keepTargets, keepSrcs)
 //@   invariant "loop#12" proposed [C25]: forall k int :: 0 <= k && k < len(retSrcs) ==> !keepSrcs[retSrcs[k]]
+//@   callsite append only_targets_nothing_kept_needs [C25]: !keepTargets[target]
 //@   ensures kept_closed [C25]: closedK(graph, keepTargets)
 //@   ensures no_kept_source [C25]: forall k int, t *core.BuildTarget, i int :: 0 <= k && k < len(result1) && in(t, keepTargets) && \
 //@      0 <= i && i < len(t.AllLocalSourcePaths()) ==> result1[k] != t.AllLocalSourcePaths()[i]
